@@ -96,6 +96,7 @@ def run(cx):
                 ok = show(pn.operand_expr(rv["ops"][rv["fields"].index("data")])) == "arg1"
         if not ok:
             inst.violation(pn.path, "PendingPacket.data", "PendingPacket::new does not store the packet data it is given")
+    ack_loop_shape(cx, "C20.d")
     with cx.instance("C20.c", "T7 SHAPE", "send_buffer_size forwards PacketSender.total_size under Active and returns 0 otherwise", floor=4) as inst:
         t = R.body(PS + "total_size")
         e = show(t.local_expr(0))
@@ -123,6 +124,25 @@ def run(cx):
             inst.site(b, None, "%s: %s" % (fn.split("::")[-2], sorted(seen)))
             if seen != {"fwd", "zero"}:
                 inst.violation(b.path, "accessor", "send_buffer_size is not `Active => half_connection.send_buffer_size(), _ => 0`: %s" % sorted(seen))
+
+
+def ack_loop_shape(cx, iid):
+    """the counter returns to zero only if acknowledge really walks base_id up to the acknowledged
+    id for every pair of ids, including across the 20-bit wrap: `while base_id != id { ..; base_id =
+    add(base_id, 1) }` (an ordered comparison stops short at the wrap)"""
+    from loops import classify
+    from domain import BitWidth
+    R = cx.R
+    with cx.instance(iid, "T5 LOOP (shape)", "acknowledge releases packets with `while base_id != acked_id`, stepping by packet_id::add", floor=1) as inst:
+        b = R.body(PS + "acknowledge")
+        Ls = b.loops()
+        if len(Ls) != 1:
+            inst.violation(b.path, "acknowledge loop", "expected one release loop in PacketSender::acknowledge, found %d" % len(Ls))
+            return
+        info = classify(b, Ls[0], BitWidth(R), cx.fa(b))
+        inst.site(b, Loc(Ls[0]["header"], 0), "%s %s" % (info.cls, info.desc))
+        if info.cls != "counter" or not info.ok or info.detail.get("counter") != "arg1.base_id" or info.detail.get("bound") != "arg2" or info.detail.get("step") != "packet_id::add":
+            inst.violation(b.path, "release loop shape", "the release loop is `%s` (%s): acknowledged packets may never be released (e.g. across the id wrap), so send_buffer_size() never returns to zero" % (info.desc, info.why or info.cls))
 
 
 def _cycle_without(b, L, target, blocker):
